@@ -315,6 +315,23 @@ def run_case(case):
             violations.append(viol(f"C04:late-end:{tr}",
                                    f"request ended at {t_end}, later than one timeout after its last event {last} "
                                    f"(bound {bound})"))
+        # (6) no premature retransmission: when NOTHING reached the client between two consecutive transmissions
+        # (no delivery, no connection event, no send error) the second one comes exactly one timeout after the first
+        for a, b in zip(txs, txs[1:]):
+            if a["fault"] == "senderr" or b["t"] - a["t"] == tau:
+                continue
+            quiet = not any(d["status"] in ("delivered", "coalesced") and a["t"] <= d.get("t_run", d["t"]) <= b["t"]
+                            for d in net.deliveries)
+            quiet = quiet and not any(c["j"] >= state["probe_conn0"] and c["kind"] == "tcp" and a["t"] < (c["t_done"] or 0) <= b["t"]
+                                      and (c["t_done"] or 0) != c["t"] for c in net.connect_log)
+            quiet = quiet and not any(c["j"] >= state["probe_conn0"] and c["outcome"] != "ok" and a["t"] <= c["t"] <= b["t"]
+                                      for c in net.connect_log)
+            if quiet:
+                violations.append(viol(f"C04:retry-spacing:{tr}",
+                                       f"transmissions #{a['i']} at {a['t']} and #{b['i']} at {b['t']} are "
+                                       f"{b['t'] - a['t']} apart with nothing received in between (timeout {tau}, "
+                                       f"faults {fired})"))
+                break
         # (4) silent schedule
         silent = all(f == "drop" for f in fired) and ntx > 0 and all(
             "then" not in case["faults"][t["i"]] for t in txs if t["i"] < len(case["faults"])) and all(
